@@ -95,7 +95,9 @@ def c01(ctx):
     for name in ("struct", "num", "str", "atom"):
         enum_replay(ctx, name, "C01")
     record_and_validate_text(ctx, "C01", False, 400 if quick(ctx) else 6000, 250000 if quick(ctx) else 4000000)
-    record_and_validate_text(ctx, "C01", False, 0, 0, mode="sweep")     # all 256 bytes at 32 token positions
+    record_and_validate_text(ctx, "C01", False, 0, 0, mode="sweep")     # all 256 bytes at 32 token positions + reference fragments
+    # the same fragments inside 4-24 KB valid wrappers (start / index-buffer seam / very end): verdict must equal the tiny wrapper's
+    ctx.vh(["v-seams", "-seed", str(ctx.seed), "-property", "C01"] + ([] if quick(ctx) else ["-full"]), timeout=3000)
     ctx.exhaustive = True
 
 
@@ -127,6 +129,8 @@ def c02(ctx):
                 "-expect", str(r["distinct"]), "-seed", str(ctx.seed), "-padsample", "1000000"], timeout=7200)
         os.remove(r["dump"])
     record_and_validate_text(ctx, "C02", False, 300 if quick(ctx) else 5000, 200000 if quick(ctx) else 3000000)
+    # every token kind exactly on the index-buffer seams, scope depth around 128 and beyond, sizes around the 8 KiB threshold
+    ctx.vh(["v-seams", "-seed", str(ctx.seed), "-property", "C02"] + ([] if quick(ctx) else ["-full"]), timeout=3000)
     ctx.exhaustive = True
 
 
@@ -148,6 +152,9 @@ def c13(ctx):
                 "buffer, every read API, marshalling of every value and a serialize round trip are compared with the spec state. "
                 "Non-trivial = history with at least one operation.")
     edit_replay(ctx, "set_q" if quick(ctx) else "set_t", "C13")
+    # histories of THREE operations (incl. a replacement string longer than the initial string buffer, iterators obtained
+    # before the first edit on every second case) on one (thorough: three) documents
+    edit_replay(ctx, "set3q" if quick(ctx) else "set3", "C13")
     ctx.exhaustive = True
 
 
@@ -158,6 +165,7 @@ def c14(ctx):
                 "callbacks, exact NOP-filled tape, every read API, marshalling (Iter, Array, Elements) and a serialize round trip "
                 "compared after the last operation. Non-trivial = history with at least one operation.")
     edit_replay(ctx, "del_q" if quick(ctx) else "del_t", "C14", sermodes=1 if quick(ctx) else 2)
+    edit_replay(ctx, "del3q" if quick(ctx) else "del3", "C14")      # histories of three operations
     ctx.exhaustive = True
 
 
